@@ -942,6 +942,19 @@ MUTANTS = [
                                     if(new_task) {""", """                                    last_task = combine_tasks(my_graph, last_task,
                                         my_successors.try_put_task(out __TBB_FLOW_GRAPH_METAINFO_ARG(metainfo)));
                                     if(last_task) {""")]),
+    dict(name='c14-seed3-join-registration-does-not-forward', prop='C14', clause='D4', edits=[(FGJ_H, """                        if(tuple_build_may_succeed() && !forwarder_busy && is_graph_active(my_graph)) {
+                            d1::small_object_allocator allocator{};
+                            typedef forward_task_bypass< join_node_base<JP, InputTuple, OutputTuple> > task_type;
+                            graph_task* t = allocator.new_object<task_type>(my_graph, allocator, *this);
+                            spawn_in_graph_arena(my_graph, *t);
+                            forwarder_busy = true;
+                        }
+                        current->status.store( SUCCEEDED, std::memory_order_release);""", """                        current->status.store( SUCCEEDED, std::memory_order_release);""")]),
+    dict(name='c14-input-node-registration-does-not-put', prop='C14', clause='D4', edits=[(FG_H, """        my_successors.register_successor(r);
+        if ( my_active )
+            spawn_put();
+        return true;""", """        my_successors.register_successor(r);
+        return true;""")]),
     # ---------------------------------------------------------------- C15
     dict(name='c15-limiter-missing-dec', prop='C15', clause='D1', edits=[
         (FG_H, "        {\n            spin_mutex::scoped_lock lock(my_mutex);\n            --my_tries;\n            if (reserved) my_predecessors.try_release();",
